@@ -3,5 +3,6 @@ pub mod drv;
 pub mod alg;
 pub mod infra;
 pub mod rm;
+pub mod sched;
 pub mod val;
 pub mod vfs;
